@@ -2,14 +2,29 @@
 // @needs fibre/stubs.rs
 // Bounded MPSC `Shared`: what CBMC can reach.  The chunk table (>= 3 chunks of >= 16 slots) makes any harness
 // that executes a send or a dequeue run for > 15 min (DESIGN 1.4), so the harnesses below construct `Shared`
-// with `Chunk::alloc` STUBBED to a one-slot chunk and never touch a slot: they exercise the waiter bookkeeping
+// with `Chunk::alloc` STUBBED to an 8-slot chunk (instead of 16..1024 slots) and touch at most tickets 0..8: they exercise the waiter bookkeeping
 // (register / unregister / notify), the side counts and the window arithmetic only.
 use super::*;
 use crate::verif_k_stubs::*;
 
+pub(crate) const STUB_SLOTS: usize = 8;
 pub(crate) fn stub_chunk_alloc<T>(_chunk_cap: usize) -> *mut Chunk<T> {
-  let slots = (0..1usize).map(|_| Slot { state: AtomicU8::new(EMPTY), data: UnsafeCell::new(None) }).collect();
+  let slots = (0..STUB_SLOTS).map(|_| Slot { state: AtomicU8::new(EMPTY), data: UnsafeCell::new(None) }).collect();
   Box::into_raw(Box::new(Chunk { slots }))
+}
+
+impl Shared<u8> {
+  /// (state byte, value) of the slot of `ticket` (chunk 0 only: ticket < STUB_SLOTS)
+  pub(crate) fn k_slot(&self, ticket: usize) -> (u8, Option<u8>) {
+    let chunk = self.table[0].chunk;
+    unsafe {
+      let slot = &(&(*chunk).slots)[ticket];
+      (slot.state.load(Ordering::Relaxed), *slot.data.get())
+    }
+  }
+  pub(crate) const K_SET: u8 = SET;
+  pub(crate) const K_SKIP: u8 = SKIP;
+  pub(crate) const K_EMPTY: u8 = EMPTY;
 }
 
 /// C04's handle-level harnesses are not about wake-ups: the two wake-everybody functions (VecDeque<Thread/Waker>
@@ -87,7 +102,7 @@ fn step_unregister() {
 #[kani::stub(parking_lot::RawMutex::lock_slow, crate::verif_k_stubs::stub_lock_slow)]
 #[kani::stub(parking_lot::RawMutex::unlock_slow, crate::verif_k_stubs::stub_unlock_slow)]
 #[kani::stub(Chunk::alloc, stub_chunk_alloc)]
-#[kani::unwind(5)]
+#[kani::unwind(10)]
 fn ob_mpsc_shared_async_send_reregister() { step_reregister(); }
 
 // @obligation id=mpsc.shared.async_send.notify_order props=C06 kind=hist tier=thorough bound="Shared::new(1,1,_) with one-slot stub chunks; 2 tasks, two notifies"
@@ -96,7 +111,7 @@ fn ob_mpsc_shared_async_send_reregister() { step_reregister(); }
 #[kani::stub(parking_lot::RawMutex::lock_slow, crate::verif_k_stubs::stub_lock_slow)]
 #[kani::stub(parking_lot::RawMutex::unlock_slow, crate::verif_k_stubs::stub_unlock_slow)]
 #[kani::stub(Chunk::alloc, stub_chunk_alloc)]
-#[kani::unwind(5)]
+#[kani::unwind(10)]
 fn ob_mpsc_shared_async_send_notify_order() { step_notify_order(); }
 
 // @obligation id=mpsc.shared.async_send.unregister props=C06 kind=hist tier=thorough bound="Shared::new(1,1,_) with one-slot stub chunks; 2 tasks, the first cancelled, one notify"
@@ -105,7 +120,7 @@ fn ob_mpsc_shared_async_send_notify_order() { step_notify_order(); }
 #[kani::stub(parking_lot::RawMutex::lock_slow, crate::verif_k_stubs::stub_lock_slow)]
 #[kani::stub(parking_lot::RawMutex::unlock_slow, crate::verif_k_stubs::stub_unlock_slow)]
 #[kani::stub(Chunk::alloc, stub_chunk_alloc)]
-#[kani::unwind(5)]
+#[kani::unwind(10)]
 fn ob_mpsc_shared_async_send_unregister() { step_unregister(); }
 
 /// Window arithmetic of the bounded MPSC against its specification, for EVERY value of the counters (wrap-around
@@ -156,7 +171,7 @@ fn step_window(cap: usize) {
 #[kani::stub(parking_lot::RawMutex::lock_slow, crate::verif_k_stubs::stub_lock_slow)]
 #[kani::stub(parking_lot::RawMutex::unlock_slow, crate::verif_k_stubs::stub_unlock_slow)]
 #[kani::stub(Chunk::alloc, stub_chunk_alloc)]
-#[kani::unwind(5)]
+#[kani::unwind(10)]
 fn ob_mpsc_shared_window_cap1() { step_window(1); }
 
 // @obligation id=mpsc.shared.window.cap2 props=C03 kind=full tier=quick bound="capacity 2 (run_cap 1); g_tail, progress, drained, ticket, remaining: every usize value"
@@ -165,7 +180,7 @@ fn ob_mpsc_shared_window_cap1() { step_window(1); }
 #[kani::stub(parking_lot::RawMutex::lock_slow, crate::verif_k_stubs::stub_lock_slow)]
 #[kani::stub(parking_lot::RawMutex::unlock_slow, crate::verif_k_stubs::stub_unlock_slow)]
 #[kani::stub(Chunk::alloc, stub_chunk_alloc)]
-#[kani::unwind(5)]
+#[kani::unwind(10)]
 fn ob_mpsc_shared_window_cap2() { step_window(2); }
 
 // @obligation id=mpsc.shared.window.cap3 props=C03 kind=full tier=thorough bound="capacity 3 (run_cap 1); g_tail, progress, drained, ticket, remaining: every usize value"
@@ -174,5 +189,5 @@ fn ob_mpsc_shared_window_cap2() { step_window(2); }
 #[kani::stub(parking_lot::RawMutex::lock_slow, crate::verif_k_stubs::stub_lock_slow)]
 #[kani::stub(parking_lot::RawMutex::unlock_slow, crate::verif_k_stubs::stub_unlock_slow)]
 #[kani::stub(Chunk::alloc, stub_chunk_alloc)]
-#[kani::unwind(5)]
+#[kani::unwind(10)]
 fn ob_mpsc_shared_window_cap3() { step_window(3); }
